@@ -16,7 +16,7 @@
 (***************************************************************************)
 EXTENDS Threads
 
-ASSUME TLCSet(1, 0)
+ASSUME \A i \in 1..Len(DataCases) : TLCSet(i, 0)
 DataSel == 1..Len(DataCases)
 
 (* the programs themselves, exported once, for the conformance check of    *)
